@@ -50,6 +50,12 @@ build_sched() {
   (cd "$HERE/harness" && $GO test -c -tags verifrt -vet=off -modfile="$SCR/build/go.mod" -overlay "$SCR/build/ov/overlay.json" -o "$SCR/build/sched.test" ./sched) || return 3
 }
 
+# auxiliary free-running binary under the race detector (needs cgo); only C08 uses it
+build_race() {
+  mkmod
+  (cd "$HERE/harness" && CGO_ENABLED=1 $GO build -race -modfile="$SCR/build/go.mod" -o "$SCR/build/racepass" ./cmd/racepass) || return 3
+}
+
 case "${1:-}" in
 setup)
   mkscratch
@@ -58,6 +64,7 @@ setup)
   if [ -d "$HERE/harness/sched" ]; then
     build_sched || { echo "setup: sched build failed"; exit 3; }
   fi
+  build_race || echo "setup: race-detector build not available (C08 will report aux_race_runs=0)"
   echo "setup: ok"
   ;;
 check)
@@ -65,6 +72,7 @@ check)
   mkscratch
   if [[ "$SCHED_CHECKS" == *" $id "* ]]; then
     build_sched || { echo "INFRA: build of instrumented binary failed for $id" >&2; exit 3; }
+    if [ "$id" = "C08" ] && build_race 2>/dev/null; then export VERIF_RACEPASS="$SCR/build/racepass"; fi
     GOMAXPROCS_SAVE="${GOMAXPROCS:-}"
     "$SCR/build/sched.test" -test.run '^TestDriver$' -test.timeout 0 -verif.check "$id" -verif.tier "$tier"
     exit $?
